@@ -9,7 +9,6 @@ import (
 	"fmt"
 	"math"
 	"math/big"
-	"os"
 	"reflect"
 	"sort"
 	"strconv"
@@ -237,7 +236,9 @@ func objterm(m map[string]any) string {
 	return emit.List(items)
 }
 
-// generic normalises any marshalable Go value to the generic JSON form.
+// generic normalises a DRIVER-side value (Go natives, numLit, strLit, actorRef:
+// never a library type) to the generic JSON form. A failure here is a bug of
+// the driver, not an outcome of the library.
 func generic(v any) any {
 	b, err := json.Marshal(v)
 	if err != nil {
@@ -308,11 +309,16 @@ func kindOf(t reflect.Type) string {
 }
 
 // deriveSchema lists the fields encoding/json sees (declaration order, embedded
-// structs expanded, shallower field shadows deeper one of the same name).
-func deriveSchema(t reflect.Type) []fieldInfo {
+// structs expanded, shallower field shadows deeper one of the same name; of
+// several at the least depth the single tagged one, else none). A member whose
+// type the model has no kind for is not a reason to stop: it is reported in
+// `unknown` (the schema case then differs from the model's schema) and left at
+// its zero value in the generated values.
+func deriveSchema(t reflect.Type) (out []fieldInfo, unknown []string) {
 	type cand struct {
 		fieldInfo
-		depth int
+		depth  int
+		tagged bool
 	}
 	var all []cand
 	var walk func(t reflect.Type, prefix []int, depth int)
@@ -335,42 +341,52 @@ func deriveSchema(t reflect.Type) []fieldInfo {
 			if name == "" {
 				name = f.Name
 			}
-			k := kindOf(f.Type)
-			if k == "" {
-				fmt.Fprintf(os.Stderr, "c12: field %s.%s has a type the model has no kind for: %s\n", t.Name(), f.Name, f.Type)
-				os.Exit(2)
+			all = append(all, cand{fieldInfo{name, kindOf(f.Type), strings.Contains(","+opts+",", ",omitempty,"), idx}, depth, tag != "" && tag[0] != ','})
+			if all[len(all)-1].Kind == "" {
+				all[len(all)-1].Kind = "?" + f.Type.String()
 			}
-			all = append(all, cand{fieldInfo{name, k, strings.Contains(","+opts+",", ",omitempty,"), idx}, depth})
 		}
 	}
 	walk(t, nil, 0)
 	min := map[string]int{}
 	cnt := map[string]int{}
+	cntTagged := map[string]int{}
 	for _, c := range all {
 		if d, ok := min[c.Name]; !ok || c.depth < d {
 			min[c.Name] = c.depth
-			cnt[c.Name] = 1
-		} else if c.depth == d {
-			cnt[c.Name]++
+			cnt[c.Name], cntTagged[c.Name] = 0, 0
 		}
-	}
-	var out []fieldInfo
-	for _, c := range all {
 		if c.depth == min[c.Name] {
-			if cnt[c.Name] > 1 {
-				fmt.Fprintf(os.Stderr, "c12: ambiguous JSON name %s in %s\n", c.Name, t.Name())
-				os.Exit(2)
+			cnt[c.Name]++
+			if c.tagged {
+				cntTagged[c.Name]++
 			}
-			out = append(out, c.fieldInfo)
 		}
 	}
-	return out
+	for _, c := range all {
+		if c.depth != min[c.Name] {
+			continue
+		}
+		if cnt[c.Name] > 1 && !(c.tagged && cntTagged[c.Name] == 1) {
+			if cntTagged[c.Name] != 1 {
+				unknown = append(unknown, c.Name+" (ambiguous: encoding/json drops it)")
+			}
+			continue
+		}
+		if strings.HasPrefix(c.Kind, "?") {
+			unknown = append(unknown, c.Name+" "+c.Kind[1:])
+			continue
+		}
+		out = append(out, c.fieldInfo)
+	}
+	return out, unknown
 }
 
 type tyInfo struct {
-	Coq    string
-	Type   reflect.Type
-	Schema []fieldInfo
+	Coq     string
+	Type    reflect.Type
+	Schema  []fieldInfo
+	Unknown []string
 }
 
 var types = []tyInfo{
@@ -399,12 +415,145 @@ func setClaims(p reflect.Value, m map[string]any) {
 	p.Elem().FieldByName("Claims").Set(reflect.ValueOf(m))
 }
 
+func hasTag(tags []string, t string) bool {
+	for _, x := range tags {
+		if x == t {
+			return true
+		}
+	}
+	return false
+}
+
 // ---------- model-side values ----------
 
+// actorV is the model-side actor. The real *oidc.ActorClaims built from it is
+// memoised, so an actorV that is referenced from two places (two depths of a
+// value's custom maps, two values) is ONE real object referenced twice.
+// claims may hold actorRef values (only to plain actors, never up the chain:
+// the object graph stays acyclic); the same map may be shared by several actors.
 type actorV struct {
 	act      *actorV
 	iss, sub string
 	claims   map[string]any
+	plain    bool // no custom key (of this actor or below) folds onto act / iss / sub
+	real     *oidc.ActorClaims
+}
+
+// actorRef is a custom-claim value that is a *oidc.ActorClaims on the real side
+// ("may_act": actor). On the model side custom claims are JSON: the reference
+// renders as the object a plain actor denotes, written by the driver itself
+// (custom entries, plus act / iss / sub when set) without the library.
+type actorRef struct{ a *actorV }
+
+// libVal is a custom-claim value of one of the library's own member types
+// (oidc.Time, oidc.Audience, oidc.SpaceDelimitedArray, *oidc.Locale): callers
+// do put those into Claims maps. `model` is the JSON it denotes, stated by the
+// driver from the type's documented form (number, array, space-joined string,
+// tag text).
+type libVal struct{ real, model any }
+
+func (l libVal) MarshalJSON() ([]byte, error) { return json.Marshal(l.model) }
+
+// newLocale: oidc.NewLocale; should it panic, the value is a nil pointer (which
+// the model does not expect: the case then reports the difference).
+func newLocale(t language.Tag) (l *oidc.Locale) {
+	drv.Catch(func() { l = oidc.NewLocale(t) })
+	return l
+}
+
+// longStr: n bytes whose content depends on the position (a cut, a shift or a
+// repeated block shows).
+func longStr(n int) string {
+	var sb strings.Builder
+	for i := 0; sb.Len() < n; i++ {
+		fmt.Fprintf(&sb, "%d.", i)
+	}
+	return sb.String()[:n]
+}
+
+func plainActorJSON(a *actorV) map[string]any {
+	if !a.plain {
+		panic("actorRef to an actor that is not plain")
+	}
+	m := map[string]any{}
+	for k, v := range a.claims {
+		m[k] = v
+	}
+	if a.act != nil {
+		m["act"] = actorRef{a.act}
+	}
+	if a.iss != "" {
+		m["iss"] = a.iss
+	}
+	if a.sub != "" {
+		m["sub"] = a.sub
+	}
+	return m
+}
+
+func (r actorRef) MarshalJSON() ([]byte, error) { return json.Marshal(plainActorJSON(r.a)) }
+
+// realVal / realClaims: the custom values handed to the library (actorRef ->
+// the memoised real pointer). A map without references is passed as it is, so
+// a map shared on the model side is shared on the real side.
+func realVal(v any) (any, bool) {
+	switch x := v.(type) {
+	case actorRef:
+		return toRealActor(x.a), true
+	case libVal:
+		return x.real, true
+	case []any:
+		out, ch := make([]any, len(x)), false
+		for i, e := range x {
+			var c bool
+			out[i], c = realVal(e)
+			ch = ch || c
+		}
+		if ch {
+			return out, true
+		}
+	}
+	return v, false
+}
+
+func realClaims(m map[string]any) map[string]any {
+	var out map[string]any
+	for k, v := range m {
+		if rv, ch := realVal(v); ch {
+			if out == nil {
+				out = make(map[string]any, len(m))
+				for k2, v2 := range m {
+					out[k2] = v2
+				}
+			}
+			out[k] = rv
+		}
+	}
+	if out == nil {
+		return m
+	}
+	return out
+}
+
+func (a *actorV) depth() int {
+	d := 0
+	for x := a.act; x != nil; x = x.act {
+		d++
+	}
+	return d
+}
+
+// repeats: the same party (iss, sub) at two depths of the chain.
+func (a *actorV) repeats() bool {
+	seen := map[[2]string]bool{}
+	for x := a; x != nil; x = x.act {
+		k := [2]string{x.iss, x.sub}
+		if seen[k] {
+			return true
+		}
+		seen[k] = true
+	}
+	return false
 }
 
 type fv struct {
@@ -467,7 +616,10 @@ func toRealActor(a *actorV) *oidc.ActorClaims {
 	if a == nil {
 		return nil
 	}
-	return &oidc.ActorClaims{Actor: toRealActor(a.act), Issuer: a.iss, Subject: a.sub, Claims: a.claims}
+	if a.real == nil {
+		a.real = &oidc.ActorClaims{Actor: toRealActor(a.act), Issuer: a.iss, Subject: a.sub, Claims: realClaims(a.claims)}
+	}
+	return a.real
 }
 
 func fromRealActor(a *oidc.ActorClaims) *actorV {
@@ -607,7 +759,13 @@ func lres(tag language.Tag, err error) string {
 func (o *oracles) addString(s string) {
 	if _, ok := o.rfc[s]; !ok {
 		if tt, err := time.Parse(time.RFC3339, s); err == nil {
-			o.rfc[s] = emit.Some(emit.Z(int64(oidc.FromTime(tt))))
+			// the documented reading, stated without the library: Unix seconds of
+			// the instant; Go's zero time (0001-01-01T00:00:00Z) is the unset Time 0
+			z := tt.Unix()
+			if tt.IsZero() {
+				z = 0
+			}
+			o.rfc[s] = emit.Some(emit.Z(z))
 		}
 	}
 	if _, ok := o.lt[s]; !ok {
@@ -674,7 +832,24 @@ func (o *oracles) term() string {
 
 // ---------- generators ----------
 
-type gen struct{ r drv.Rand }
+// genState: what one generated value leaves behind for the next ones (an actor
+// object that a later value references again) and the input-class tags the
+// member generators want on the case.
+type genState struct {
+	prev *actorV
+	tags []string
+}
+
+type gen struct {
+	r  drv.Rand
+	st *genState
+}
+
+func (g gen) note(tag string) {
+	if !hasTag(g.st.tags, tag) {
+		g.st.tags = append(g.st.tags, tag)
+	}
+}
 
 var strPool = []string{"", "a", "alice", "https://issuer.example.com", "client-1", "user:42", "a b", " lead", "trail ",
 	"true", "false", "null", "0", "x\"y\\z", "<script>", "ünï©ode", "日本", "\U0001F600 ok", "https://rp.example/cb?a=1&b=2", "2023-01-02T03:04:05Z", "en", "openid", "e\tf"}
@@ -784,6 +959,25 @@ func (g gen) key() string {
 // nativeVal: custom-claim values as callers really write them (Go natives
 // that encoding/json turns into the generic forms).
 func (g gen) customVal() any {
+	if g.r.Chance(1, 10) {
+		switch g.r.IntN(4) {
+		case 0:
+			t := g.timeVal()
+			return libVal{oidc.Time(t), float64(t)}
+		case 1:
+			ws := []string{g.word(), g.word(), g.word()}[:g.r.IntN(4)]
+			return libVal{oidc.SpaceDelimitedArray(ws), strings.Join(ws, " ")}
+		case 2:
+			au := []string{g.str(), g.str()}[:1+g.r.IntN(2)]
+			return libVal{oidc.Audience(au), au}
+		default:
+			t := drv.Pick(g.r, localePool)
+			if t == "und" {
+				return libVal{newLocale(language.Und), nil}
+			}
+			return libVal{newLocale(language.MustParse(t)), t}
+		}
+	}
 	switch g.r.IntN(8) {
 	case 0:
 		return g.r.IntN(100000)
@@ -840,7 +1034,7 @@ func (g gen) typedJSON(kind string) any {
 		}
 		return g.anyStrs(g.strs(g.tagStr))
 	case "KActor":
-		return generic(toRealActor(g.actor(1)))
+		return g.actorDoc(g.r.IntN(3))
 	case "KAddr":
 		return map[string]any{"country": g.str(), "locality": g.str(), "zip": g.str()}
 	case "KMap":
@@ -863,6 +1057,161 @@ func (g gen) anyStrs(s []string) any {
 var rfcPool = []string{"2023-01-02T03:04:05Z", "2023-11-14T22:13:20+02:00", "1970-01-01T00:00:00Z", "0001-01-01T00:00:00Z",
 	"2023-01-02T03:04:05.999Z", "2023-01-02 03:04:05Z", "2023-13-02T03:04:05Z", "9999-12-31T23:59:59Z", "1969-12-31T23:59:59-00:00"}
 
+// parties of delegation chains (RFC 8693 section 4.1): few enough that the
+// same party turns up at several depths; (iss, sub) pairs that differ in one
+// component only; empty components.
+var partyPool = [][2]string{
+	{"https://issuer.example.com", "svc-a"}, {"https://issuer.example.com", "svc-b"}, {"https://sts.example", "svc-a"},
+	{"", "svc-a"}, {"", "svc-b"}, {"https://issuer.example.com", ""}, {"", ""}, {"https://issuer.example.com", "user:42"},
+	{"a", "b"}, {"b", "a"}, {"https://issuer.example.com", "SVC-A"}, {"https://issuer.example.com/", "svc-a"},
+}
+
+func (g gen) plainClaims() map[string]any {
+	switch g.r.IntN(4) {
+	case 0:
+		return nil
+	case 1:
+		return map[string]any{}
+	}
+	m := map[string]any{}
+	for i := 1 + g.r.IntN(3); i > 0; i-- {
+		m[g.key()] = g.customVal()
+	}
+	return m
+}
+
+func copyClaims(m map[string]any) map[string]any {
+	if m == nil {
+		return nil
+	}
+	out := make(map[string]any, len(m))
+	for k, v := range m {
+		out[k] = v
+	}
+	return out
+}
+
+// link makes a chain of the levels (outermost first).
+func link(levels []*actorV) *actorV {
+	for i := len(levels) - 1; i >= 0; i-- {
+		levels[i].plain = true
+		if i+1 < len(levels) {
+			levels[i].act = levels[i+1]
+		}
+	}
+	return levels[0]
+}
+
+// chain: a plain delegation chain of 1..5 actors (nesting depth 0..4) over a
+// small set of parties. Shapes: independent picks from 1-3 parties (repeats at
+// different depths are the rule), strict alternation a -> b -> a ..., the same
+// party at every depth, a sub-chain followed by a copy of itself (identical
+// sub-chains, distinct objects). Dimensions on top: every level its own custom
+// map / equal maps / ONE map object shared by several levels; a level whose
+// custom map references a deeper actor of the same chain (the same
+// *ActorClaims reachable on two paths, no cycle).
+func (g gen) chain() *actorV {
+	n := 1 + g.r.IntN(5)
+	perm := g.r.Perm(len(partyPool))
+	ps := make([][2]string, 1+g.r.IntN(3))
+	for i := range ps {
+		ps[i] = partyPool[perm[i]]
+	}
+	levels := make([]*actorV, n)
+	shape := drv.Pick(g.r, []string{"pick", "pick", "alternate", "same", "subchain"})
+	for i := range levels {
+		var p [2]string
+		switch shape {
+		case "alternate":
+			p = ps[i%min(2, len(ps))]
+			if len(ps) == 1 && i%2 == 1 {
+				p = partyPool[perm[len(perm)-1]]
+			}
+		case "same":
+			p = ps[0]
+		default:
+			p = drv.Pick(g.r, ps)
+		}
+		levels[i] = &actorV{iss: p[0], sub: p[1]}
+	}
+	maps := drv.Pick(g.r, []string{"own", "own", "equal", "shared"})
+	var common map[string]any
+	if maps != "own" {
+		common = g.plainClaims()
+	}
+	for _, l := range levels {
+		switch {
+		case maps == "own" || (maps == "shared" && g.r.Chance(1, 3)):
+			l.claims = g.plainClaims()
+		case maps == "equal":
+			l.claims = copyClaims(common)
+		default:
+			l.claims = common
+		}
+	}
+	if shape == "subchain" && n >= 2 { // X ++ X by content
+		h := n / 2
+		for i := 0; i < h; i++ {
+			levels[h+i].iss, levels[h+i].sub = levels[i].iss, levels[i].sub
+			levels[h+i].claims = copyClaims(levels[i].claims)
+		}
+	}
+	a := link(levels)
+	if n >= 2 && g.r.Chance(1, 3) { // a shallower level references a deeper actor
+		i := g.r.IntN(n - 1)
+		j := i + 1 + g.r.IntN(n-1-i)
+		c := copyClaims(levels[i].claims) // its own map from here on (a shared one would reach upwards)
+		if c == nil {
+			c = map[string]any{}
+		}
+		if g.r.Chance(1, 4) {
+			c[drv.Pick(g.r, []string{"chain", "actors"})] = []any{actorRef{levels[j]}, actorRef{levels[n-1]}}
+		} else {
+			c[drv.Pick(g.r, []string{"may_act", "origin", "prev", "x"})] = actorRef{levels[j]}
+		}
+		levels[i].claims = c
+		g.note("actshare=ptr-in-chain")
+	}
+	g.note("actshape=" + shape)
+	if maps != "own" {
+		g.note("actmaps=" + maps)
+	}
+	return a
+}
+
+// actorDoc: the JSON object of an actor chain, written by the driver (no
+// library involved): parties as in chain(), members sometimes absent, null or
+// of another type.
+func (g gen) actorDoc(depth int) map[string]any {
+	ps := [][2]string{drv.Pick(g.r, partyPool), drv.Pick(g.r, partyPool)}
+	var mk func(d int) map[string]any
+	mk = func(d int) map[string]any {
+		m := map[string]any{}
+		for i := g.r.IntN(3); i > 0; i-- {
+			m[g.key()] = g.jsonVal(1)
+		}
+		p := drv.Pick(g.r, ps)
+		for i, k := range []string{"iss", "sub"} {
+			switch {
+			case g.r.Chance(1, 12):
+				m[k] = g.jsonVal(1)
+			case p[i] != "" || g.r.Chance(1, 4):
+				m[k] = g.maybeEsc(p[i])
+			}
+		}
+		switch {
+		case d > 0:
+			m["act"] = mk(d - 1)
+		case g.r.Chance(1, 6):
+			m["act"] = drv.Pick(g.r, []any{nil, 5.0, "x", []any{}, map[string]any{}})
+		}
+		return m
+	}
+	return mk(depth)
+}
+
+// actor: free-form nested actor: arbitrary iss / sub, custom keys that collide
+// with act / iss / sub (typed or junk values).
 func (g gen) actor(depth int) *actorV {
 	a := &actorV{}
 	if g.r.Bool() {
@@ -871,7 +1220,7 @@ func (g gen) actor(depth int) *actorV {
 	if g.r.Chance(2, 3) {
 		a.sub = g.str()
 	}
-	if depth > 0 && g.r.Chance(2, 3) {
+	if depth > 0 && g.r.Chance(3, 4) {
 		a.act = g.actor(depth - 1)
 	}
 	switch g.r.IntN(4) {
@@ -889,11 +1238,30 @@ func (g gen) actor(depth int) *actorV {
 			if k == "act" {
 				kind = "KActor"
 			}
-			if depth > 0 || k != "act" {
-				a.claims[k] = g.typedJSON(kind)
-			}
+			a.claims[k] = g.typedJSON(kind)
 		}
 	}
+	return a
+}
+
+// actorVal: what an `act` member holds.
+func (g gen) actorVal() *actorV {
+	var a *actorV
+	switch {
+	case g.st.prev != nil && g.r.Chance(1, 6): // the object an earlier value already references
+		a = g.st.prev
+		g.note("actshare=earlier-value")
+	case g.r.Chance(3, 5):
+		a = g.chain()
+	default:
+		a = g.actor(g.r.IntN(5))
+		g.note("actshape=free")
+	}
+	g.note("actdepth=" + strconv.Itoa(a.depth()))
+	if a.depth() > 0 {
+		g.note("actrepeat=" + map[bool]string{true: "yes", false: "no"}[a.repeats()])
+	}
+	g.st.prev = a
 	return a
 }
 
@@ -926,7 +1294,7 @@ func (g gen) fieldVal(f fieldInfo, wf bool) fv {
 		}
 	case "KActor":
 		if !unset {
-			v.act = g.actor(2)
+			v.act = g.actorVal()
 		}
 	case "KAddr":
 		if !unset {
@@ -953,6 +1321,7 @@ func (g gen) fieldVal(f fieldInfo, wf bool) fv {
 // value generates registered members and a custom map for a type.
 func (g gen) value(ti tyInfo) ([]fv, map[string]any, []string) {
 	tags := []string{}
+	g.st.tags = nil
 	wf := !g.r.Chance(1, 12)
 	if !wf {
 		tags = append(tags, "wf=no")
@@ -998,8 +1367,30 @@ func (g gen) value(ti tyInfo) ([]fv, map[string]any, []string) {
 		if g.r.Chance(1, 5) && g.addCaseVariants(ti, vals, claims, 1+g.r.IntN(2)) > 0 {
 			tags = append(tags, "fxx-c12-1=case-variant-key")
 		}
+		// custom claims that are *oidc.ActorClaims on the Go side: a member of the
+		// value's own act chain (one object, two paths), or a chain of their own
+		// (also under the name "act": read back into an unset act member)
+		if g.r.Chance(1, 4) {
+			var members []*actorV
+			for _, v := range vals {
+				for x := v.act; x != nil && x.plain; x = x.act {
+					members = append(members, x)
+				}
+			}
+			if len(members) > 0 && g.r.Chance(2, 3) {
+				m := drv.Pick(g.r, members)
+				claims[drv.Pick(g.r, []string{"may_act", "origin", "actor", "x"})] = actorRef{m}
+				if g.r.Chance(1, 3) {
+					claims["actors"] = []any{actorRef{m}, actorRef{members[len(members)-1]}, actorRef{m}}
+				}
+				tags = append(tags, "actshare=ptr-in-custom")
+			} else {
+				claims[drv.Pick(g.r, []string{"may_act", "act", "act", "origin"})] = actorRef{g.chain()}
+				tags = append(tags, "actshare=custom-actor")
+			}
+		}
 	}
-	return vals, claims, tags
+	return vals, claims, append(tags, g.st.tags...)
 }
 
 // isEmpty mirrors encoding/json's omitempty test on the model value.
@@ -1068,7 +1459,7 @@ func build(ti tyInfo, vals []fv, claims map[string]any) reflect.Value {
 	for i, f := range ti.Schema {
 		vals[i].set(p.Elem().FieldByIndex(f.Index))
 	}
-	setClaims(p, claims)
+	setClaims(p, realClaims(claims))
 	return p
 }
 
@@ -1092,6 +1483,13 @@ var altForms = []struct {
 	{"str-locales-compound", "xyz-DE de-CH-geneva en-Abcd de-CH abcdefghi-DE i-klingon x-private en-GB-oed de-DE-1996 und-DE"},
 	{"arr-locales-compound", []any{"xyz-DE", "de-CH-geneva", "en-Abcd", "fr-FR", "de-abcdefghi", "zh-min-nan", "en-US-u-co-phonebk"}},
 	{"str-locale-compound-unknown", "en-Abcd"}, {"str-locale-compound-unknown2", "xyz-DE"},
+	// near misses of the documented boolean / null forms and keyword-like strings
+	{"str-True", "True"}, {"str-TRUE", "TRUE"}, {"str-tRue", "tRue"}, {"str-t", "t"}, {"str-T", "T"}, {"str-1", "1"}, {"str-0", "0"},
+	{"str-yes", "yes"}, {"str-on", "on"}, {"str-true-lead", " true"}, {"str-true-trail", "true "}, {"str-true-nl", "true\n"}, {"str-true-tab", "\ttrue"},
+	{"str-true-quoted", `"true"`}, {"str-false-F", "False"}, {"str-null", "null"}, {"str-NULL", "NULL"}, {"str-nil", "nil"}, {"str-undefined", "undefined"},
+	{"str-arr", "[]"}, {"str-obj", "{}"}, {"str-kelvin", "\u212a"}, {"str-long-s", "fal\u017fe"}, {"str-true-long-s", "true\u017f"},
+	{"lit-one-point-zero", numLit("1.0")}, {"lit-one-exp", numLit("1e0")}, {"num-minus1", -1.0}, {"arr-true", []any{true}}, {"arr-str-true", []any{"true"}},
+	{"obj-true", map[string]any{"true": true}},
 	{"str-empty", ""}, {"str", "abc"}, {"str-spaces", "a b  c"}, {"str-rfc3339", "2023-01-02T03:04:05Z"},
 	{"str-rfc3339-offset", "2023-11-14T22:13:20+02:00"}, {"str-rfc3339-zero", "0001-01-01T00:00:00Z"},
 	{"str-badtime", "2023-13-02T03:04:05Z"}, {"str-locale", "de-CH"}, {"str-locales", "en de-CH xx-YY und"},
@@ -1108,10 +1506,49 @@ var altForms = []struct {
 
 // ---------- cases ----------
 
-func codecCases(w *emit.Writer, r drv.Rand, n int) {
-	g := gen{r}
+// sizeCases: values and documents beyond 1 KiB / 4 KiB (8 KiB in the thorough
+// tier): one long member, one long custom claim, a scope of 200 words, a
+// nested chain whose levels are each beyond 1 KiB, long inputs of the
+// stand-alone decoders.
+func sizeCases(w *emit.Writer, thorough bool) {
+	zero := func(ti tyInfo, set map[string]fv) []fv {
+		vals := make([]fv, len(ti.Schema))
+		for i, f := range ti.Schema {
+			vals[i] = fv{kind: f.Kind}
+			if v, ok := set[f.Name]; ok && v.kind == f.Kind {
+				vals[i] = v
+			}
+		}
+		return vals
+	}
+	words := make([]string, 200)
+	for i := range words {
+		words[i] = "s" + strconv.Itoa(i)
+	}
+	at := types[1]
+	roundCaseWith(w, at, zero(at, map[string]fv{"iss": {kind: "KStr", s: longStr(1100)}, "sub": {kind: "KStr", s: "alice"},
+		"scope": {kind: "KSDA", strs: words}}), map[string]any{"blob": longStr(4200), "role": "r"}, []string{"custom=set", "collide=none", "size=4k"})
+	lvl := func(i int, act *actorV) *actorV {
+		return &actorV{act: act, iss: "https://issuer.example.com", sub: []string{"svc-a", "svc-b"}[i%2],
+			claims: map[string]any{"note": longStr(1400 + i)}, plain: true}
+	}
+	ac := types[7]
+	roundCaseWith(w, ac, zero(ac, map[string]fv{"act": {kind: "KActor", act: lvl(1, lvl(2, nil))}, "sub": {kind: "KStr", s: "svc-a"}}),
+		map[string]any{"note": longStr(1400)}, []string{"custom=set", "collide=none", "size=4k", "actdepth=1"})
+	decK(w, "KAud", "long", longStr(4100), []string{"size=4k"})
+	decK(w, "KSDA", "long", strings.Join(words, " "), []string{"size=1k"})
+	if thorough {
+		ui := types[3]
+		roundCaseWith(w, ui, zero(ui, map[string]fv{"sub": {kind: "KStr", s: "alice"}, "name": {kind: "KStr", s: longStr(8200)}}),
+			map[string]any{"blob": longStr(8200)}, []string{"custom=set", "collide=none", "size=8k"})
+		decK(w, "KLocales", "long", strings.Repeat("de-CH en xx-YY ", 300), []string{"size=4k"})
+	}
+}
+
+func codecCases(w *emit.Writer, r drv.Rand, n int, thorough bool) {
+	g := gen{r, &genState{}}
 	for i := range types {
-		types[i].Schema = deriveSchema(types[i].Type)
+		types[i].Schema, types[i].Unknown = deriveSchema(types[i].Type)
 	}
 	// schema cases
 	for _, ti := range types {
@@ -1119,23 +1556,21 @@ func codecCases(w *emit.Writer, r drv.Rand, n int) {
 		for i, f := range ti.Schema {
 			items[i] = emit.Ctor("F", emit.Str(f.Name), f.Kind, emit.Bool(f.Omit))
 		}
-		w.Add(emit.Case{Input: emit.Ctor("ISchema", ti.Coq), Observed: emit.Ctor("OSchema", emit.List(items)),
-			Tags: []string{"kind=schema", "type=" + ti.Coq}})
+		obs := emit.Ctor("OSchema", emit.List(items))
+		if len(ti.Unknown) > 0 {
+			obs = emit.Ctor("OSchemaX", emit.List(items), emit.StrList(ti.Unknown))
+		}
+		w.Add(emit.Case{Input: emit.Ctor("ISchema", ti.Coq), Observed: obs,
+			Tags: []string{"kind=schema", "type=" + ti.Coq}, Human: map[string]any{"unknown_members": ti.Unknown}})
 	}
 	// the F01 input of DESIGN.md section 6, always present
 	decK(w, "KAud", "arr-str-num", []any{"a", 1.0}, []string{"f01=aud-nonstring"})
-	// every number-literal spelling through the stand-alone Time decoder, always
+	// EVERY alternative form (number and string spellings, compound language
+	// tags, near misses of true, keyword-like strings, arrays, objects) through
+	// EVERY stand-alone decoder, in every run
 	for _, a := range altForms {
-		if strings.HasPrefix(a.tag, "lit-") {
-			decK(w, "KTime", a.tag, a.v, nil)
-		}
-	}
-	// every string spelling / compound language tag through every stand-alone decoder, always
-	for _, a := range altForms {
-		if strings.HasPrefix(a.tag, "esc-") || strings.Contains(a.tag, "compound") {
-			for _, k := range []string{"KAud", "KTime", "KBoolS", "KSDA", "KLocales"} {
-				decK(w, k, a.tag, a.v, nil)
-			}
+		for _, k := range []string{"KAud", "KTime", "KBoolS", "KSDA", "KLocales", "KLocale"} {
+			decK(w, k, a.tag, a.v, nil)
 		}
 	}
 	// the Fxx-C12-1 input: custom keys that encoding/json folds onto set members
@@ -1153,6 +1588,7 @@ func codecCases(w *emit.Writer, r drv.Rand, n int) {
 		roundCaseWith(w, ti, vals, map[string]any{"i\u017fs": "https://evil.example", "\u017fub": "mallory", "ISS": "x", "role": "r"},
 			[]string{"custom=set", "collide=none", "fxx-c12-1=case-variant-key"})
 	}
+	sizeCases(w, thorough)
 	for i := 0; i < n; i++ {
 		ti := types[i%len(types)]
 		switch (i / len(types)) % 5 {
@@ -1161,7 +1597,7 @@ func codecCases(w *emit.Writer, r drv.Rand, n int) {
 		case 2, 3:
 			decCase(w, g, ti)
 		default:
-			k := drv.Pick(r, []string{"KAud", "KTime", "KBoolS", "KSDA", "KLocales"})
+			k := drv.Pick(r, []string{"KAud", "KTime", "KBoolS", "KSDA", "KLocales", "KLocale"})
 			a := drv.Pick(r, altForms)
 			if r.Chance(1, 3) {
 				a.tag, a.v = "typed", g.typedJSON(k)
@@ -1173,47 +1609,97 @@ func codecCases(w *emit.Writer, r drv.Rand, n int) {
 
 func roundCase(w *emit.Writer, g gen, ti tyInfo) {
 	vals, claims, tags := g.value(ti)
+	if g.r.Chance(1, 4) {
+		tags = append(tags, "seq=twice")
+	}
 	roundCaseWith(w, ti, vals, claims, tags)
 }
 
+// parseDoc reads bytes the library produced into the generic form. Bytes that
+// are not JSON are an outcome (ok = false), not a reason to stop.
+func parseDoc(b []byte) (doc any, ok bool) {
+	if err := json.Unmarshal(b, &doc); err != nil {
+		return nil, false
+	}
+	return doc, true
+}
+
+// roundCaseWith: json.Marshal the value, json.Unmarshal the bytes into a fresh
+// value. Every failure of the library is an observed outcome: a panic is
+// OPanic, an error from Marshal (or bytes that are not JSON) is ORound None _,
+// an error from Unmarshal is ORound (Some doc) None. With the tag seq=twice the
+// SAME Go object is marshalled a second time and that is a second case with the
+// same input (Marshal must not use up or change the value).
 func roundCaseWith(w *emit.Writer, ti tyInfo, vals []fv, claims map[string]any, tags []string) {
-	in := build(ti, vals, claims)
 	inClaims := objterm(genericObj(claims)) // before Marshal (JWTTokenRequest.MarshalJSON writes into its map)
-	var doc any
-	var back reflect.Value
-	var merr, uerr error
-	var bytes []byte
-	p := drv.Catch(func() {
-		bytes, merr = json.Marshal(in.Interface())
-		if merr == nil {
-			back = reflect.New(ti.Type)
-			uerr = json.Unmarshal(bytes, back.Interface())
-		}
-	})
-	o := newOracles()
-	obs := "OPanic"
-	if p == "" {
-		docT, backT := emit.None, emit.None
-		if merr == nil {
-			if err := json.Unmarshal(bytes, &doc); err != nil {
-				panic(err)
-			}
-			o.addDoc(doc)
-			docT = emit.Some(jterm(doc))
-			if uerr == nil {
-				backT = emit.Some(decTerm(project(ti, back)))
-			}
-		}
-		obs = emit.Ctor("ORound", docT, backT)
-	}
-	for _, v := range vals { // locale members: the guard asks the oracle about them
-		if v.loc != nil {
-			o.addString(*v.loc)
+	inVals := valsTerm(vals)
+	reps := 1
+	var seq []string
+	for _, t := range tags {
+		if t == "seq=twice" {
+			reps = 2
+		} else {
+			seq = append(seq, t)
 		}
 	}
-	w.Add(emit.Case{Input: emit.Ctor("IRound", ti.Coq, valsTerm(vals), inClaims, o.term()), Observed: obs,
-		Tags:  append([]string{"kind=round", "type=" + ti.Coq}, tags...),
-		Human: map[string]any{"doc": string(bytes)}})
+	var in reflect.Value
+	pb := drv.Catch(func() { in = build(ti, vals, claims) }) // oidc.NewLocale
+	for rep := 1; rep <= reps; rep++ {
+		var doc any
+		var back reflect.Value
+		var merr, uerr error
+		var bytes []byte
+		p := pb
+		if p == "" {
+			p = drv.Catch(func() {
+				bytes, merr = json.Marshal(in.Interface())
+				if merr == nil {
+					back = reflect.New(ti.Type)
+					uerr = json.Unmarshal(bytes, back.Interface())
+				}
+			})
+		}
+		o := newOracles()
+		obs := "OPanic"
+		human := map[string]any{"doc": string(bytes)}
+		if p == "" {
+			docT, backT := emit.None, emit.None
+			if merr != nil {
+				human["marshal_error"] = merr.Error()
+			} else if d, ok := parseDoc(bytes); !ok {
+				human["marshal_error"] = "Marshal returned bytes that are not JSON"
+			} else {
+				doc = d
+				o.addDoc(doc)
+				docT = emit.Some(jterm(doc))
+				if uerr == nil {
+					pp := drv.Catch(func() { backT = emit.Some(decTerm(project(ti, back))) }) // Locale.Tag
+					if pp != "" {
+						obs = "OPanic"
+						p = pp
+					}
+				} else {
+					human["unmarshal_error"] = uerr.Error()
+				}
+			}
+			if p == "" {
+				obs = emit.Ctor("ORound", docT, backT)
+			}
+		}
+		if p != "" {
+			human["panic"] = p
+		}
+		for _, v := range vals { // locale members: the guard asks the oracle about them
+			if v.loc != nil {
+				o.addString(*v.loc)
+			}
+		}
+		ctags := append([]string{"kind=round", "type=" + ti.Coq}, seq...)
+		if reps == 2 {
+			ctags = append(ctags, fmt.Sprintf("seq=%dof2", rep))
+		}
+		w.Add(emit.Case{Input: emit.Ctor("IRound", ti.Coq, inVals, inClaims, o.term()), Observed: obs, Tags: ctags, Human: human})
+	}
 }
 
 func decCase(w *emit.Writer, g gen, ti tyInfo) {
@@ -1228,15 +1714,25 @@ func decCase(w *emit.Writer, g gen, ti tyInfo) {
 		doc = a.v
 		tags = append(tags, "doc="+a.tag)
 	} else {
-		vals, claims, _ := g.value(ti)
-		b, err := json.Marshal(build(ti, vals, claims).Interface())
-		if err != nil {
-			panic(err)
+		// a mostly valid document: what the library writes for a generated value.
+		// When the library cannot write it (error, panic, bytes that are not a
+		// JSON object) THAT is the outcome to report: the value becomes a
+		// round-trip case, on which the property predicate is false.
+		vals, claims, vtags := g.value(ti)
+		var b []byte
+		var err error
+		p := drv.Catch(func() { b, err = json.Marshal(build(ti, vals, claims).Interface()) })
+		var m map[string]any
+		if p == "" && err == nil {
+			if d, ok := parseDoc(b); ok {
+				m, _ = d.(map[string]any)
+			}
 		}
-		if err := json.Unmarshal(b, &doc); err != nil {
-			panic(err)
+		if m == nil {
+			roundCaseWith(w, ti, vals, claims, append(vtags, "from=dec-document"))
+			return
 		}
-		m := doc.(map[string]any)
+		doc = m
 		nm := drv.Pick(r, []int{0, 1, 1, 1, 2, 2, 3})
 		for j := 0; j < nm; j++ {
 			f := drv.Pick(r, ti.Schema)
@@ -1259,8 +1755,16 @@ func decCase(w *emit.Writer, g gen, ti tyInfo) {
 		if nm == 0 {
 			tags = append(tags, "alt=none")
 		}
+		// an act chain written by the driver (repeated parties, depth 0-4)
+		for _, f := range ti.Schema {
+			if f.Kind == "KActor" && r.Chance(1, 4) {
+				d := r.IntN(5)
+				m[f.Name] = g.actorDoc(d)
+				tags = append(tags, "alt=KActor:chain", "actdepth="+strconv.Itoa(d))
+			}
+		}
 	}
-	b, err := json.Marshal(doc)
+	b, err := json.Marshal(doc) // driver-side value (generic JSON, numLit, strLit)
 	if err != nil {
 		panic(err)
 	}
@@ -1274,31 +1778,37 @@ func decCase(w *emit.Writer, g gen, ti tyInfo) {
 	o := newOracles()
 	o.addDoc(doc)
 	obs := "OPanic"
+	human := map[string]any{"doc": string(b)}
 	if p == "" {
 		if uerr != nil {
 			obs = emit.Ctor("ODec", emit.None, emit.None)
 		} else {
-			dt := decTerm(project(ti, out)) // before re-marshalling (it may write into the value)
-			p = drv.Catch(func() { re, merr = json.Marshal(out.Interface()) })
+			var dt string
+			p = drv.Catch(func() {
+				dt = decTerm(project(ti, out)) // before re-marshalling (it may write into the value)
+				re, merr = json.Marshal(out.Interface())
+			})
 			if p == "" {
 				reT := emit.None
-				if merr == nil {
-					var rd any
-					if err := json.Unmarshal(re, &rd); err != nil {
-						panic(err)
-					}
+				if merr != nil {
+					human["remarshal_error"] = merr.Error()
+				} else if rd, ok := parseDoc(re); ok {
 					reT = emit.Some(jterm(rd))
+				} else {
+					human["remarshal_error"] = "Marshal returned bytes that are not JSON"
 				}
 				obs = emit.Ctor("ODec", emit.Some(dt), reT)
 			}
 		}
 	}
-	w.Add(emit.Case{Input: emit.Ctor("IDec", ti.Coq, jterm(doc), o.term()), Observed: obs, Tags: tags,
-		Human: map[string]any{"doc": string(b)}})
+	if p != "" {
+		human["panic"] = p
+	}
+	w.Add(emit.Case{Input: emit.Ctor("IDec", ti.Coq, jterm(doc), o.term()), Observed: obs, Tags: tags, Human: human})
 }
 
 func decK(w *emit.Writer, kind, tag string, v any, extra []string) {
-	b, err := json.Marshal(v)
+	b, err := json.Marshal(v) // driver-side value (generic JSON, numLit, strLit)
 	if err != nil {
 		panic(err)
 	}
@@ -1314,9 +1824,17 @@ func decK(w *emit.Writer, kind, tag string, v any, extra []string) {
 		target = reflect.New(tSDA)
 	case "KLocales":
 		target = reflect.New(tLocales)
+	case "KLocale": // a *Locale member on its own: json allocates the pointer, as in a struct
+		target = reflect.New(tLocale)
 	}
 	var uerr error
-	p := drv.Catch(func() { uerr = json.Unmarshal(b, target.Interface()) })
+	var got string
+	p := drv.Catch(func() {
+		uerr = json.Unmarshal(b, target.Interface())
+		if uerr == nil {
+			got = get(kind, target.Elem()).term()
+		}
+	})
 	o := newOracles()
 	o.addDoc(v)
 	obs := "OPanic"
@@ -1324,7 +1842,7 @@ func decK(w *emit.Writer, kind, tag string, v any, extra []string) {
 		if uerr != nil {
 			obs = emit.Ctor("ODecK", emit.None)
 		} else {
-			obs = emit.Ctor("ODecK", emit.Some(get(kind, target.Elem()).term()))
+			obs = emit.Ctor("ODecK", emit.Some(got))
 		}
 	}
 	tags := append([]string{"kind=deck", "decoder=" + kind, "form=" + tag}, extra...)
